@@ -21,6 +21,21 @@ const DST: &[&str] = &["/dst", "/workspace/cache", "/t=1", "/-t", "/a b", "dst",
 const META: &[&str] = &["/src,a", "/src,readonly", "/a\"b", "/line\nbreak", "x,y", ",", "a,b,c", "/cr\rx"];
 const BP_META: &[&str] = &["x,y", "heroku/a,heroku/b", "\"quoted\"", "a\nb", ",lead", "trail,"];
 
+/// bind-mount sources below the scratch directory `/$S` (`lct::make_mount_scratch`), which EXISTS on the host when
+/// `start_container` runs: a real directory, the same directory through a symlink (relative, absolute, in a symlinked parent),
+/// with `.` / `..` / `//` / a trailing slash, below a symlink, a file and a symlink to it, a dangling link, missing paths
+const HOST: &[&str] = &[
+    "/$S/real", "/$S/link", "/$S/via/link2", "/$S/abslink", "/$S/real/", "/$S/link/", "/$S/real/.", "/$S//real", "/$S/./real",
+    "/$S/real/../real", "/$S/via/../real", "/$S/link/../real", "/$S/real/sub", "/$S/link/sub", "/$S/via/link2/sub/", "/$S/link/sub/..",
+    "/$S/current", "/$S/releases/v2", "/$S/releases/../current", "/$S/file", "/$S/flink", "/$S/real/f", "/$S/link/f", "/$S/dangling",
+    "/$S/missing", "/$S/real/missing", "/$S/link/missing/..", "/$S", "/$S/", "/$S/via/..",
+];
+/// different texts (different also as `PathBuf`s) for ONE location, `<scratch>/real`
+const HOST_ALIAS: &[&str] = &["/$S/real", "/$S/link", "/$S/via/link2", "/$S/abslink", "/$S/real/../real", "/$S/via/../real", "/$S/link/sub/.."];
+/// relative sources (never absolute: whatever the temp directory is called, an absolute path sorts before them in the code's
+/// `BTreeMap<PathBuf, _>` exactly as `/$S/...` does in the model)
+const REL_SRC: &[&str] = &["./cache", "cache", "a/../b", "./a//b", "--mount", "-v", "a/b", "a-b", "rel/./p"];
+
 fn s(x: &str) -> String { x.to_string() }
 fn pk(r: &mut Rng, pool: &[&str]) -> String { pool[r.below(pool.len() as u64) as usize].to_string() }
 
@@ -46,7 +61,14 @@ fn gen_ccfg(r: &mut Rng, meta_mount: bool) -> CCfg {
     let mut ports: Vec<u16> = vec![];
     for _ in 0..r.below(4) { let p = if r.chance(1, 2) { *r.pick(&[0u16, 1, 80, 8080, 12345, 65535]) } else { r.below(65536) as u16 }; if !ports.contains(&p) { ports.push(p); } }
     let n = r.below(4) as usize;
-    let srcs = distinct_paths(r, n, SRC);
+    // one configuration in three (never the D6 minority): sources that exist on the host, in several spellings, among them
+    // aliases of one location; mixed with relative and missing ones
+    let srcs = if !meta_mount && r.chance(1, 3) {
+        let n = n.max(1);
+        let mut pool: Vec<&str> = if r.chance(1, 2) { HOST_ALIAS.to_vec() } else { HOST.to_vec() };
+        if r.chance(1, 2) { pool.extend_from_slice(REL_SRC); }
+        distinct_paths(r, n, &pool)
+    } else { distinct_paths(r, n, SRC) };
     let mut mounts: Vec<(String, String)> = srcs.into_iter().map(|x| (x, pk(r, DST))).collect();
     if meta_mount {
         let m = pk(r, META);
@@ -128,10 +150,12 @@ fn assemble(fixture: Vec<(String, Vec<u8>)>, bcfgs: Vec<BCfg>, ccfgs: Vec<CCfg>,
         (s("n_env"), ccfgs.iter().map(|c| c.env.len()).chain(bcfgs.iter().map(|b| b.env.len())).max().unwrap_or(0).to_string()),
         (s("n_mounts"), ccfgs.iter().map(|c| c.mounts.len()).max().unwrap_or(0).to_string()),
         (s("n_ports"), ccfgs.iter().map(|c| c.ports.len()).max().unwrap_or(0).to_string()),
+        (s("mount_src"), s(match ccfgs.iter().map(|c| c.mounts.iter().filter(|(src, _)| src.contains(MOUNT_PLACEHOLDER)).count()).max().unwrap_or(0) { 0 => "opaque", 1 => "on-host", _ => "on-host-several" })),
     ];
+    let on_host = uses_mount_scratch(&ccfgs);
     Built {
         fields: vec![enc_fixture(&fixture), enc_list(bcfgs.iter().map(enc_bcfg).collect()), enc_list(ccfgs.iter().map(enc_ccfg).collect()), enc_tree(&tree), s("-")],
-        tags, nontrivial: n_hostile >= 1,
+        tags, nontrivial: n_hostile >= 1 || on_host,
     }
 }
 
@@ -358,6 +382,25 @@ fn generate(tier: &str, seed: u64, emit: &mut dyn FnMut(Case)) {
         push(assemble_scripted(fixture0.clone(), vec![fail_bcfg(), ok_cfg.clone()], vec![], tree0(vec![Act::Rebuild(0, vec![Act::Rebuild(1, vec![Act::Shell(s("true"))])])]),
             mk(vec![se('p', 0, 1, b"first\n", t), se('p', 1, 255, b"second\n", b"ERROR: failed to build\n"), se('p', 2, 0, ok_out, b"")]), 2, "out-rebuild"));
     }
+    // bounded-exhaustive part 4 (bind-mount sources that exist on the host): every spelling of HOST alone; every pair of
+    // different texts for one location in both orders, at two targets; triples; mixes with relative and missing sources
+    {
+        let start = |m: Vec<(String, String)>, ep: Option<String>| (vec![plain_bcfg()], vec![CCfg { mounts: m, entrypoint: ep, ..plain_ccfg() }], Tree { cfg: 0, acts: vec![Act::Start(0, vec![CAct::LogsNow])] });
+        let mut hv: Vec<(Vec<BCfg>, Vec<CCfg>, Tree)> = vec![];
+        for h in HOST { hv.push(start(vec![(s(h), s("/dst"))], None)); }
+        for (i, a) in HOST_ALIAS.iter().enumerate() { for (j, b) in HOST_ALIAS.iter().enumerate() {
+            if i != j && std::path::PathBuf::from(a) != std::path::PathBuf::from(b) { hv.push(start(vec![(s(a), s("/srv/one")), (s(b), s("/srv/two"))], Some(s("web")))); }
+        } }
+        for t in [
+            ["/$S/current", "/$S/releases/v2", "/$S/releases/../current"], ["/$S/real", "/$S/link", "/$S/via/link2"], ["/$S/abslink", "/$S/via/../real", "/$S/real/sub"],
+            ["/$S/link", "cache", "/$S/missing"], ["/$S/flink", "/$S/file", "./a//b"], ["/$S/dangling", "/$S/real/", "a/../b"], ["/$S/link/sub", "/$S/real/sub", "/$S/via/link2/sub/"],
+        ] {
+            hv.push(start(vec![(s(t[0]), s("/srv/current")), (s(t[1]), s("/srv/pinned")), (s(t[2]), s("/a b"))], None));
+            hv.push(start(vec![(s(t[2]), s("/x")), (s(t[1]), s("/x")), (s(t[0]), s("/x"))], None));
+            hv.push(start(vec![(s(t[0]), s("/srv/current")), (s(t[1]), s("/srv/pinned"))], None));
+        }
+        for (b, c, t) in hv { push(assemble(fixture0.clone(), b, c, t, "exhaustive-host-mounts")); }
+    }
     // seeded random scripted scenarios: the random scenarios of below with every pack invocation (and some docker ones) scripted
     let n_scripted = match tier { "thorough" => 6000, _ => 400 };
     for i in 0..n_scripted {
@@ -436,7 +479,7 @@ fn pack_invocations(t: &Tree) -> usize {
 /// message of the first panic if it is one of the two of `build_internal`'s match on the pack result, else `other`/`-`) and what
 /// the stand-in recorded having printed at each `pack build` (`inv=`).
 fn run_scripted_case(fields: &[String]) -> String {
-    let (Some(fixture), Some(bcfgs), Some(_), Some(tree), Some(script)) = (parse_fixture(&fields[0]), parse_cfg_list(&fields[1], parse_bcfg), parse_cfg_list(&fields[2], parse_ccfg), parse_tree(&fields[3]), parse_script(&fields[5])) else { return "bad-op".into() };
+    let (Some(fixture), Some(bcfgs), Some(ccfgs), Some(tree), Some(script)) = (parse_fixture(&fields[0]), parse_cfg_list(&fields[1], parse_bcfg), parse_cfg_list(&fields[2], parse_ccfg), parse_tree(&fields[3]), parse_script(&fields[5])) else { return "bad-op".into() };
     let ch = chain(&tree);
     if ch.iter().any(|i| *i >= bcfgs.len()) { return "bad-op".into(); }
     let flavour = match fields[4].split_once('@') { Some(("-", f)) => f, None if fields[4] == "-" => "0", _ => return "bad-op".into() };
@@ -454,6 +497,7 @@ fn run_scripted_case(fields: &[String]) -> String {
     write_fixture(&a.join("app"));
     std::fs::write(&log, b"").unwrap();
     let before = (file_snapshot(&m), file_snapshot(&a));
+    let scratch = if uses_mount_scratch(&ccfgs) { Some(make_mount_scratch(&root_path)) } else { None };
     let sibling = |name: &str| std::env::current_exe().unwrap().parent().unwrap().join(name);
     for prog in ["docker", "pack"] { std::os::unix::fs::symlink(sibling("standin"), bin.join(prog)).unwrap(); }
     let script_file = root_path.join("script");
@@ -467,6 +511,7 @@ fn run_scripted_case(fields: &[String]) -> String {
         .env("STANDIN_FLAVOUR", flavour).env("STANDIN_SCRIPT", &script_file).env("STANDIN_OUTLOG", root_path.join("outlog"))
         .env("TRUN_CTX_LOG", root_path.join("ctxlog")).env("TRUN_PANIC_LOG", root_path.join("paniclog"))
         .stdin(std::process::Stdio::null()).stdout(std::process::Stdio::null()).stderr(std::process::Stdio::null());
+    if let Some(h) = &scratch { cmd.env("LCT_MOUNT_BASE", h); }
     let mut child = cmd.spawn().unwrap();
     let start = std::time::Instant::now();
     let status = loop {
@@ -489,7 +534,7 @@ fn run_scripted_case(fields: &[String]) -> String {
         let mut it = line.split(' ');
         let prog = match it.next() { Some("docker") => "d", Some("pack") => "p", _ => "?" };
         let mut c = prog.to_string();
-        for w in it { let bytes = unhex(w.strip_prefix('h').unwrap_or("zz")).unwrap_or_default(); c.push_str(",h"); c.push_str(&hex(&canon.word(&bytes))); }
+        for w in it { let bytes = canon_scratch(&unhex(w.strip_prefix('h').unwrap_or("zz")).unwrap_or_default(), scratch.as_deref()); c.push_str(",h"); c.push_str(&hex(&canon.word(&bytes))); }
         cmds.push(c);
         if line.starts_with("pack h6275696c64 ") || line == "pack h6275696c64" {
             // what the stand-in recorded for this (1-based) line of its log
